@@ -89,7 +89,8 @@ template<class Run> void dfs(int argc, char** argv, Run& run, const char* crumbK
   { // single execution of a recorded choice sequence, twice (observations must agree)
     std::vector<int> t, a; parseToken(one, t, a);
     ch.nshards = 1;
-    for(int k = 0; k < 2; ++k) { ch.begin(t); try { run(ch, true); } catch(SkipRun&) {} }
+    for(int k = 0; k < 2; ++k) { watchdog_arm(watchdogMs * 4); ch.begin(t); try { run(ch, true); } catch(SkipRun&) {} }
+    watchdog_disarm();
     emit_counters();
     return;
   }
